@@ -66,6 +66,7 @@ POOL = [
     ("DESCRIPTION:back\\\\slash \\\\; semi", "DESCRIPTION", {}, T("back\\slash \\; semi"), "unescape"),
     ("DESCRIPTION:literal backslash-n: \\\\n", "DESCRIPTION", {}, T("literal backslash-n: \\n"), "unescape"),
     ("DESCRIPTION:percent %2C stays", "DESCRIPTION", {}, T("percent %2C stays"), "unescape"),
+    ("DESCRIPTION:see https%3A//x/a%2Cb, thanks; %3B and %5C", "DESCRIPTION", {}, T("see https%3A//x/a%2Cb, thanks; %3B and %5C"), "unescape"),
     # an escaped backslash before a character that is NOT escapable in TEXT: the backslash must survive
     ("DESCRIPTION:json {\\\\\"k\\\\\": 1} path C\\\\:x tab\\\\t", "DESCRIPTION", {}, T('json {\\"k\\": 1} path C\\:x tab\\t'), None),
     ("DTSTART:20240101T100000", "DTSTART", {}, lambda v: _dt(v, datetime(2024, 1, 1, 10)), None),
@@ -275,6 +276,13 @@ def generate(ctx: Ctx, n_sim, depth):
 def run_generated(ctx: Ctx, rnd, pid):
     cases = generate(ctx, 150 if ctx.quick else 3000, 9)
     ctx.sample({"generated": cases[len(cases) // 2]})
+    # coverage floor: every pool line occurs at least once (alone in a VEVENT, and next to its neighbour in a nested shape),
+    # under a plain and under a folded / LF / str rendering -- TLC's simulation decides the rest
+    plain_ch = {"eol": "crlf", "bom": False, "str": False, "fold": 0, "case": 0, "trail": 0}
+    alt_ch = {"eol": "lf", "bom": False, "str": True, "fold": 1, "case": 1, "trail": 1}
+    for i in range(len(POOL)):
+        cases.append({"shape": "EV", "props": [[i], [], []], "ch": plain_ch if i % 2 else alt_ch})
+        cases.append({"shape": "CAL-EV-TODO", "props": [[], [i, (i + 1) % len(POOL)], [i]], "ch": alt_ch if i % 2 else plain_ch})
     groups = {}
     try:
         for prov in ("zoneinfo", "pytz"):
